@@ -2922,12 +2922,14 @@ namespace bloch::runtime {
                 v.type = Value::Type::IntArray;
                 return v;  // empty, default as int[] when untyped
             }
+            // evaluated once: the first element decides the array type and is then reused, not
+            // evaluated again (it may measure a qubit or call a function)
             Value first = eval(arr->elements[0].get());
             switch (first.type) {
                 case Value::Type::Bit:
                     v.type = Value::Type::BitArray;
                     for (auto& el : arr->elements) {
-                        Value ev = eval(el.get());
+                        Value ev = (&el == &arr->elements.front()) ? first : eval(el.get());
                         if (ev.type != Value::Type::Bit)
                             throw BlochError(ErrorCategory::Runtime, el->line, el->column,
                                              "inconsistent element types in array literal");
@@ -2937,7 +2939,7 @@ namespace bloch::runtime {
                 case Value::Type::Boolean:
                     v.type = Value::Type::BooleanArray;
                     for (auto& el : arr->elements) {
-                        Value ev = eval(el.get());
+                        Value ev = (&el == &arr->elements.front()) ? first : eval(el.get());
                         if (ev.type != Value::Type::Boolean)
                             throw BlochError(ErrorCategory::Runtime, el->line, el->column,
                                              "inconsistent element types in array literal");
@@ -2947,7 +2949,7 @@ namespace bloch::runtime {
                 case Value::Type::Int:
                     v.type = Value::Type::IntArray;
                     for (auto& el : arr->elements) {
-                        Value ev = eval(el.get());
+                        Value ev = (&el == &arr->elements.front()) ? first : eval(el.get());
                         if (ev.type != Value::Type::Int && ev.type != Value::Type::Bit)
                             throw BlochError(ErrorCategory::Runtime, el->line, el->column,
                                              "inconsistent element types in array literal");
@@ -2958,7 +2960,7 @@ namespace bloch::runtime {
                 case Value::Type::Long:
                     v.type = Value::Type::LongArray;
                     for (auto& el : arr->elements) {
-                        Value ev = eval(el.get());
+                        Value ev = (&el == &arr->elements.front()) ? first : eval(el.get());
                         if (ev.type != Value::Type::Long && ev.type != Value::Type::Int &&
                             ev.type != Value::Type::Bit)
                             throw BlochError(ErrorCategory::Runtime, el->line, el->column,
@@ -2974,7 +2976,7 @@ namespace bloch::runtime {
                 case Value::Type::Float:
                     v.type = Value::Type::FloatArray;
                     for (auto& el : arr->elements) {
-                        Value ev = eval(el.get());
+                        Value ev = (&el == &arr->elements.front()) ? first : eval(el.get());
                         if (ev.type != Value::Type::Float && ev.type != Value::Type::Int &&
                             ev.type != Value::Type::Long && ev.type != Value::Type::Bit)
                             throw BlochError(ErrorCategory::Runtime, el->line, el->column,
@@ -2992,7 +2994,7 @@ namespace bloch::runtime {
                 case Value::Type::String:
                     v.type = Value::Type::StringArray;
                     for (auto& el : arr->elements) {
-                        Value ev = eval(el.get());
+                        Value ev = (&el == &arr->elements.front()) ? first : eval(el.get());
                         if (ev.type != Value::Type::String)
                             throw BlochError(ErrorCategory::Runtime, el->line, el->column,
                                              "inconsistent element types in array literal");
@@ -3002,7 +3004,7 @@ namespace bloch::runtime {
                 case Value::Type::Char:
                     v.type = Value::Type::CharArray;
                     for (auto& el : arr->elements) {
-                        Value ev = eval(el.get());
+                        Value ev = (&el == &arr->elements.front()) ? first : eval(el.get());
                         if (ev.type != Value::Type::Char)
                             throw BlochError(ErrorCategory::Runtime, el->line, el->column,
                                              "inconsistent element types in array literal");
